@@ -106,7 +106,10 @@ class Quoter:
 
     def in_slashes(self, val: str) -> bool:
         val = val.strip()
-        return self._in_quotes(val, "/")
+        if val.endswith("/i"):
+            # case-insensitive regular expression e.g. /^abc/i
+            val = val[:-1]
+        return len(val) > 1 and self._in_quotes(val, "/")
 
     def standardise_quotes(self, val: str) -> str:
         """
